@@ -1,201 +1,15 @@
-(** C19 proofs: a pipeline of well-formed requests (RFC rendering, Lib/HttpRender.v) is parsed back
-    exactly -- each request gets exactly its body, no body byte is parsed as a request. *)
+(** C19 proofs: pipelines of requests written as RFC 9112 allows are parsed back exactly; the first
+    malformed request is answered with 400 after the well-formed ones and nothing after it is processed. *)
 From Coq Require Import List NArith Bool Arith Lia ZifyBool.
 From TwLib Require Import HttpGrammar HttpRender.
 From C22 Require Import Gen Model Proofs SegProofs RoundTrip Final Lengths.
-From C19 Require Import Model Proofs ReqLine.
+From C19 Require Import Model Proofs ReqLine HeadersBlock.
 Import ListNotations.
 
 Arguments find_crlf : simpl never.
 Arguments firstn : simpl nomatch.
 Arguments skipn : simpl nomatch.
 Opaque total_headers_size max_headers.
-
-(** ---- strip / sanitize on well-formed values ---- *)
-Lemma lstrip_id : forall l, match l with [] => True | x :: _ => is_ws x = false end -> lstrip l = l.
-Proof. intros [|x l] H; simpl; [reflexivity|]. rewrite H. reflexivity. Qed.
-
-Lemma rev_head_last : forall (v : bytes), v <> [] -> rev v = last v 0%N :: rev (removelast v).
-Proof.
-  intros v H. rewrite (app_removelast_last 0%N H) at 1. rewrite rev_unit. reflexivity.
-Qed.
-
-Lemma strip_sp_value : forall v, wf_field_value v = true -> strip (SP :: v) = v.
-Proof.
-  intros v H. unfold strip. rewrite !rev_append_rev, !app_nil_r.
-  unfold wf_field_value in H. apply andb_true_iff in H. destruct H as [_ H].
-  change (lstrip (SP :: v)) with (lstrip v).
-  destruct v as [|x r]; [reflexivity|].
-  apply andb_true_iff in H. destruct H as [H1 H2]. apply negb_true_iff in H1. apply negb_true_iff in H2.
-  rewrite (lstrip_id (x :: r)) by exact H1.
-  rewrite (rev_head_last (x :: r)) by discriminate.
-  rewrite lstrip_id by exact H2. rewrite <- rev_head_last by discriminate. apply rev_involutive.
-Qed.
-
-Lemma sanitize_id : forall v, forallb is_field_octet v = true -> sanitize v = v.
-Proof.
-  induction v as [|x r IH]; intros H; [reflexivity|].
-  simpl in H. apply andb_true_iff in H. destruct H as [H1 H2].
-  unfold is_field_octet in H1. apply andb_true_iff in H1. destruct H1 as [H1 Hlf].
-  apply andb_true_iff in H1. destruct H1 as [_ Hcr].
-  apply negb_true_iff in Hcr. apply negb_true_iff in Hlf.
-  simpl. rewrite Hcr, Hlf, (IH H2). reflexivity.
-Qed.
-
-Lemma no_nul : forall v, forallb is_field_octet v = true -> existsb (N.eqb 0) v = false.
-Proof.
-  induction v as [|x r IH]; intros H; [reflexivity|].
-  simpl in H. apply andb_true_iff in H. destruct H as [H1 H2].
-  unfold is_field_octet in H1. apply andb_true_iff in H1. destruct H1 as [H1 _].
-  apply andb_true_iff in H1. destruct H1 as [H0 _]. apply negb_true_iff in H0.
-  destruct x as [|p]; [simpl in H0; discriminate|]. simpl. apply IH. exact H2.
-Qed.
-
-(** ---- no CR in tokens / targets / values: lines contain no CRLF ---- *)
-Definition not_cr (c : N) : bool := negb (N.eqb c CR).
-
-Lemma forallb_imp : forall (p q : N -> bool) l, (forall c, p c = true -> q c = true) ->
-  forallb p l = true -> forallb q l = true.
-Proof.
-  intros p q l H. induction l as [|x r IH]; simpl; [reflexivity|]. intros H1.
-  apply andb_true_iff in H1. destruct H1 as [H1 H2]. rewrite (H _ H1), (IH H2). reflexivity.
-Qed.
-
-Lemma tchar_not_cr : forall c, is_tchar_rfc c = true -> not_cr c = true.
-Proof. intros c H. unfold not_cr. destruct (N.eqb c CR) eqn:E; [|reflexivity]. apply N.eqb_eq in E. subst. vm_compute in H. discriminate. Qed.
-Lemma vchar_not_cr : forall c, is_VCHAR c = true -> not_cr c = true.
-Proof. intros c H. unfold not_cr. destruct (N.eqb c CR) eqn:E; [|reflexivity]. apply N.eqb_eq in E. subst. vm_compute in H. discriminate. Qed.
-Lemma field_octet_not_cr : forall c, is_field_octet c = true -> not_cr c = true.
-Proof.
-  intros c H. unfold is_field_octet in H. apply andb_true_iff in H. destruct H as [H _].
-  apply andb_true_iff in H. destruct H as [_ H]. exact H.
-Qed.
-
-Lemma token_chars_ok : forall m, rfc_token m = true -> forallb is_tchar_rfc m = true /\ m <> [].
-Proof.
-  intros m H. unfold rfc_token in H. apply andb_true_iff in H. destruct H as [H1 H2].
-  split; [exact H1|]. destruct m; [discriminate|discriminate].
-Qed.
-
-Lemma request_line_no_crlf : forall m t v, rfc_request_line_fields m t v = true ->
-  find_crlf (request_line m t v) = None.
-Proof.
-  intros m t v H. apply find_crlf_no_cr. fold not_cr.
-  change (fun c : N => negb (N.eqb c CR)) with not_cr.
-  unfold rfc_request_line_fields in H.
-  apply andb_true_iff in H. destruct H as [H Hv]. apply andb_true_iff in H. destruct H as [H Ht].
-  apply andb_true_iff in H. destruct H as [Hm _].
-  unfold request_line. rewrite forallb_app. simpl. rewrite forallb_app. simpl.
-  destruct (token_chars_ok m Hm) as [Hm' _].
-  rewrite (forallb_imp _ _ m tchar_not_cr Hm'), (forallb_imp _ _ t vchar_not_cr Ht). simpl.
-  apply orb_true_iff in Hv. destruct Hv as [Hv|Hv]; apply octets_eqb_eq in Hv; subst; reflexivity.
-Qed.
-
-Lemma field_line_no_crlf : forall f, wf_field f = true -> find_crlf (field_line f) = None.
-Proof.
-  intros [n v] H. apply find_crlf_no_cr. change (fun c : N => negb (N.eqb c CR)) with not_cr.
-  unfold wf_field in H. simpl in H. apply andb_true_iff in H. destruct H as [Hn Hv].
-  unfold wf_field_value in Hv. apply andb_true_iff in Hv. destruct Hv as [Hv _].
-  unfold field_line. simpl. rewrite forallb_app. simpl.
-  destruct (token_chars_ok n Hn) as [Hn' _].
-  rewrite (forallb_imp _ _ n tchar_not_cr Hn'), (forallb_imp _ _ v field_octet_not_cr Hv). reflexivity.
-Qed.
-
-Lemma read_line_at : forall l rest, find_crlf l = None -> read_line (l ++ CRLFo ++ rest) = Some (l, rest).
-Proof.
-  intros l rest H. change (l ++ CRLFo ++ rest) with (l ++ CR :: LF :: rest).
-  unfold read_line. rewrite (find_crlf_at l rest H).
-  rewrite firstn_app_exact.
-  replace (length l + 2) with (length (l ++ [CR; LF])) by (rewrite app_length; simpl; lia).
-  replace (l ++ CR :: LF :: rest) with ((l ++ [CR; LF]) ++ rest) by (rewrite <- app_assoc; reflexivity).
-  rewrite skipn_app_exact. reflexivity.
-Qed.
-
-(** ---- one well-formed field through headerReceived ---- *)
-Lemma no_colon_token : forall n, rfc_token n = true -> find_byte COLON n = None.
-Proof.
-  intros n H. destruct (token_chars_ok n H) as [H1 _]. apply find_byte_none_forall.
-  clear H. induction n as [|x n IH]; simpl in *; [reflexivity|].
-  apply andb_true_iff in H1. destruct H1 as [Hx Hn]. rewrite (IH Hn), andb_true_r.
-  destruct (N.eqb x COLON) eqn:E; [|reflexivity]. apply N.eqb_eq in E. subst. vm_compute in Hx. discriminate.
-Qed.
-
-Lemma header_received_wf : forall h f d,
-  wf_field f = true -> choose1 (h_dec h) (fst f) (snd f) = Some d -> h_count h < max_headers ->
-  header_received h (field_line f) = Some (mkh d (h_hdrs h ++ [(lower (fst f), snd f)]) (S (h_count h))).
-Proof.
-  intros h [n v] d Hw Hc Hcount. simpl in *. unfold wf_field in Hw. simpl in Hw.
-  apply andb_true_iff in Hw. destruct Hw as [Hn Hv].
-  unfold header_received, field_line. simpl fst. simpl snd.
-  change COLONo with COLON. rewrite (split_first_app COLON n (SP :: v) (no_colon_token n Hn)).
-  rewrite istoken_rfc, Hn. rewrite (strip_sp_value v Hv).
-  pose proof Hv as Hv'. unfold wf_field_value in Hv'. apply andb_true_iff in Hv'. destruct Hv' as [Hoct _].
-  rewrite (no_nul v Hoct), Hc, (sanitize_id v Hoct).
-  destruct (Nat.ltb max_headers (S (h_count h))) eqn:E; [lia|reflexivity].
-Qed.
-
-(** ---- the header block ---- *)
-Definition norm (f : bytes * bytes) : bytes * bytes := (lower (fst f), snd f).
-
-Fixpoint fold_fields (h : hst) (fs : list (bytes * bytes)) : option hst :=
-  match fs with
-  | [] => Some h
-  | f :: r => match header_received h (field_line f) with Some h' => fold_fields h' r | None => None end
-  end.
-
-Lemma fold_fields_wf : forall fs h d,
-  forallb wf_field fs = true -> choose fs (h_dec h) = Some d -> h_count h + length fs <= max_headers ->
-  fold_fields h fs = Some (mkh d (h_hdrs h ++ map norm fs) (h_count h + length fs)).
-Proof.
-  induction fs as [|[n v] r IH]; intros h d Hw Hc Hn.
-  - simpl in *. inversion Hc; subst. rewrite app_nil_r, Nat.add_0_r. destruct h; reflexivity.
-  - simpl in Hw. apply andb_true_iff in Hw. destruct Hw as [Hf Hr].
-    cbn [choose] in Hc. destruct (choose1 (h_dec h) n v) as [d1|] eqn:E1; [|discriminate].
-    cbn [fold_fields]. simpl length in Hn.
-    rewrite (header_received_wf h (n, v) d1 Hf E1) by lia.
-    rewrite (IH (mkh d1 (h_hdrs h ++ [(lower (fst (n, v)), snd (n, v))]) (S (h_count h))) d Hr Hc) by (simpl; lia).
-    simpl. f_equal. f_equal.
-    + rewrite <- app_assoc. reflexivity.
-    + lia.
-Qed.
-
-Definition fields_size (fs : list (bytes * bytes)) : N :=
-  fold_right (fun f acc => (N.of_nat (length (field_line f)) + acc)%N) 0%N fs.
-
-Lemma field_line_head : forall f, wf_field f = true ->
-  exists c r, field_line f = c :: r /\ is_ws c = false.
-Proof.
-  intros [n v] H. unfold wf_field in H. simpl in H. apply andb_true_iff in H. destruct H as [Hn _].
-  destruct (token_chars_ok n Hn) as [Hc Hne]. destruct n as [|c n]; [congruence|].
-  exists c, (n ++ COLONo :: SP :: v). split; [reflexivity|].
-  simpl in Hc. apply andb_true_iff in Hc. destruct Hc as [Hc _].
-  unfold is_ws. destruct (N.eqb c SP) eqn:E1; [apply N.eqb_eq in E1; subst; vm_compute in Hc; discriminate|].
-  destruct (N.eqb c HTAB) eqn:E2; [apply N.eqb_eq in E2; subst; vm_compute in Hc; discriminate|]. reflexivity.
-Qed.
-
-Lemma headers_loop_fields : forall fs pend h size fuel rest h1 h',
-  length fs < fuel -> (size + fields_size fs <= total_headers_size)%N ->
-  forallb wf_field fs = true -> flush h pend = Some h1 -> fold_fields h1 fs = Some h' ->
-  headers_loop fuel (flat_map (fun f => field_line f ++ CRLFo) fs ++ CRLFo ++ rest) pend h size = HDone h' rest.
-Proof.
-  induction fs as [|f r IH]; intros pend h size fuel rest h1 h' Hfuel Hsize Hw Hfl Hfold.
-  - destruct fuel as [|fuel]; [simpl in Hfuel; lia|]. cbn [flat_map app headers_loop].
-    change (CRLFo ++ rest) with ([] ++ CRLFo ++ rest). rewrite (read_line_at [] rest eq_refl).
-    simpl length. simpl in Hsize. change (N.of_nat 0) with 0%N.
-    destruct (N.ltb total_headers_size (size + 0)) eqn:E; [lia|].
-    rewrite Hfl. simpl in Hfold. inversion Hfold; subst. reflexivity.
-  - destruct fuel as [|fuel]; [simpl in Hfuel; lia|]. simpl in Hw. apply andb_true_iff in Hw. destruct Hw as [Hf Hr].
-    cbn [flat_map]. rewrite <- !app_assoc. cbn [headers_loop].
-    rewrite (read_line_at (field_line f) _ (field_line_no_crlf f Hf)).
-    cbn [fields_size fold_right] in Hsize. fold (fields_size r) in Hsize.
-    destruct (N.ltb total_headers_size (size + N.of_nat (length (field_line f)))) eqn:E; [lia|].
-    destruct (field_line_head f Hf) as (c & tl & Hl & Hws). rewrite Hl at 1. rewrite Hws, Hfl.
-    cbn [fold_fields] in Hfold. destruct (header_received h1 (field_line f)) as [h2|] eqn:Eh; [|discriminate].
-    apply (IH (field_line f) h1 _ fuel rest h2 h'); try assumption.
-    + simpl in Hfuel. lia.
-    + lia.
-    + unfold flush. rewrite Hl. rewrite <- Hl. exact Eh.
-Qed.
 
 (** ---- fuel of the whole-stream parser ---- *)
 Lemma read_line_len : forall s line rest, read_line s = Some (line, rest) -> length rest + 2 <= length s.
@@ -282,7 +96,9 @@ Proof.
     destruct (persistent v (h_hdrs h)); [|reflexivity]. rewrite (IH f2) by lia. reflexivity.
 Qed.
 
-(** ---- one well-formed request at the front of the stream ---- *)
+(** ---- one request at the front of the stream ---- *)
+Definition vals (fs : list field) : list (bytes * bytes) := map field_pair fs.
+
 Inductive wire_ok : framing -> bytes -> bytes -> Prop :=
 | WNone : wire_ok FNoBody [] []
 | WLen : forall body, wire_ok (FLength (N.of_nat (length body))) body body
@@ -291,10 +107,60 @@ Inductive wire_ok : framing -> bytes -> bytes -> Prop :=
     (trailers_size ts + 2 <= default_maxtr)%N ->
     wire_ok FChunked (encode cs z ze ts) (concat (map c_data cs)).
 
-Lemma fields_len : forall fs : list (bytes * bytes),
-  length fs <= length (flat_map (fun f => field_line f ++ CRLFo) fs).
+Lemma conts_lines_len : forall cs : list (octets * octets),
+  length cs <= length (flat_map (fun c => cont_line c ++ CRLFo) cs).
+Proof. induction cs as [|c cs IH]; simpl; [lia|]. rewrite !app_length. simpl. lia. Qed.
+
+Lemma block_lines_len : forall fs : list field, block_lines fs <= length (flat_map field_lines fs).
 Proof.
-  induction fs as [|f r IH]; simpl; [lia|]. rewrite !app_length. simpl. lia.
+  induction fs as [|f r IH]; [simpl; lia|].
+  cbn [block_lines fold_right flat_map]. fold (block_lines r). rewrite app_length.
+  unfold field_lines at 1. rewrite !app_length. change (length CRLFo) with 2.
+  pose proof (conts_lines_len (f_conts f)). lia.
+Qed.
+
+(* the head of a request whose request line is fine: what [serve] does next *)
+Lemma serve_head : forall f m t v rest1,
+  rfc_request_line_fields m t v = true ->
+  serve true (S f) (request_line m t v ++ CRLFo ++ rest1) false 0%N =
+  if N.ltb total_headers_size (N.of_nat (length (request_line m t v))) then ([], EBad) else
+  match headers_loop (S (length rest1)) rest1 [] (mkh DNone [] 0) (N.of_nat (length (request_line m t v))) with
+  | HBad => ([], EBad)
+  | HWait => ([], EWait)
+  | HDone h rest2 =>
+      let deliver body rest3 :=
+        let r := mkreq m t v (h_hdrs h) body in
+        if persistent v (h_hdrs h)
+        then let '(rs, e) := serve true f rest3 false 0%N in (r :: rs, e)
+        else ([r], EClosed) in
+      match h_dec h with
+      | DNone => deliver [] rest2
+      | DLen n =>
+          if N.leb n (N.of_nat (length rest2))
+          then deliver (firstn (N.to_nat n) rest2) (skipn (N.to_nat n) rest2)
+          else ([], EWait)
+      | DChunk =>
+          match rest2 with
+          | [] => ([], EWait)
+          | _ =>
+              match decode true default_maxtr [rest2] with
+              | (body, Finished extra) => deliver body extra
+              | (_, Failed _) => ([], EBad)
+              | (_, Need) => ([], EWait)
+              end
+          end
+      end
+  end.
+Proof.
+  intros f m t v rest1 Hrl. rewrite serve_S.
+  rewrite (read_line_at _ rest1 (request_line_no_crlf m t v Hrl)). cbv zeta. rewrite N.add_0_l.
+  destruct (N.ltb total_headers_size (N.of_nat (length (request_line m t v)))); [reflexivity|].
+  assert (Hnil : is_nil (request_line m t v) = false).
+  { unfold rfc_request_line_fields in Hrl. apply andb_true_iff in Hrl. destruct Hrl as [Hrl _].
+    apply andb_true_iff in Hrl. destruct Hrl as [Hrl _]. apply andb_true_iff in Hrl. destruct Hrl as [Hm _].
+    destruct (token_chars_ok m Hm) as [_ Hne]. unfold request_line. destruct m; [congruence|reflexivity]. }
+  rewrite Hnil. cbn [andb].
+  rewrite (proj2 (request_line_exact (request_line m t v) m t v) (conj eq_refl Hrl)). reflexivity.
 Qed.
 
 Lemma request_parsed : forall m t v fs fr wire body rest,
@@ -302,8 +168,8 @@ Lemma request_parsed : forall m t v fs fr wire body rest,
   forallb wf_field fs = true ->
   length fs <= max_headers ->
   (N.of_nat (length (request_line m t v)) + fields_size fs <= total_headers_size)%N ->
-  no_identity fs = true -> cl_short fs = true ->
-  rfc_request_framing (cls_of fs) (tes_of fs) = Some fr ->
+  no_identity (vals fs) = true -> cl_short (vals fs) = true ->
+  rfc_request_framing (cls_of (vals fs)) (tes_of (vals fs)) = Some fr ->
   wire_ok fr wire body ->
   serve_stream true (render_head m t v fs ++ wire ++ rest) =
     (let r := mkreq m t v (map norm fs) body in
@@ -312,29 +178,26 @@ Lemma request_parsed : forall m t v fs fr wire body rest,
      else ([r], EClosed)).
 Proof.
   intros m t v fs fr wire body rest Hrl Hw Hcount Hsize Hid Hsh Hfr Hwire.
-  pose proof (framing_partial fs Hid Hsh) as Hfp. rewrite Hfr in Hfp.
-  destruct (choose fs DNone) as [d|] eqn:Ech; [|discriminate]. simpl in Hfp. inversion Hfp as [Hd]; clear Hfp.
-  pose proof (fold_fields_wf fs (mkh DNone [] 0) d Hw Ech ltac:(simpl; lia)) as Hfold. simpl in Hfold.
-  set (rest1 := flat_map (fun f => field_line f ++ CRLFo) fs ++ CRLFo ++ wire ++ rest).
+  pose proof (framing_partial (vals fs) Hid Hsh) as Hfp. rewrite Hfr in Hfp.
+  destruct (choose (vals fs) DNone) as [d|] eqn:Ech; [|discriminate]. simpl in Hfp. inversion Hfp as [Hd]; clear Hfp.
+  pose proof (fold_fields_choose fs (mkh DNone [] 0) Hw ltac:(simpl; lia)) as Hfold.
+  cbn [h_dec h_count h_hdrs] in Hfold. fold (vals fs) in Hfold. rewrite Ech in Hfold. simpl in Hfold.
+  destruct (Nat.ltb max_headers (length fs)) eqn:Ecnt; [lia|].
+  set (rest1 := flat_map field_lines fs ++ CRLFo ++ wire ++ rest).
   assert (Hs : render_head m t v fs ++ wire ++ rest = request_line m t v ++ CRLFo ++ rest1).
   { unfold render_head, rest1. rewrite <- !app_assoc. reflexivity. }
-  rewrite Hs. unfold serve_stream. rewrite serve_S.
-  rewrite (read_line_at _ rest1 (request_line_no_crlf m t v Hrl)). cbv zeta.
-  assert (Hfs : (0 <= fields_size fs)%N) by lia.
-  destruct (N.ltb total_headers_size (0 + N.of_nat (length (request_line m t v)))) eqn:E1; [lia|].
-  assert (Hnil : is_nil (request_line m t v) = false).
-  { unfold rfc_request_line_fields in Hrl. apply andb_true_iff in Hrl. destruct Hrl as [Hrl _].
-    apply andb_true_iff in Hrl. destruct Hrl as [Hrl _]. apply andb_true_iff in Hrl. destruct Hrl as [Hm _].
-    destruct (token_chars_ok m Hm) as [_ Hne]. destruct m; [congruence|reflexivity]. }
-  rewrite Hnil. cbn [andb].
-  rewrite (proj2 (request_line_exact (request_line m t v) m t v) (conj eq_refl Hrl)).
+  rewrite Hs. unfold serve_stream. rewrite (serve_head _ m t v rest1 Hrl).
+  assert (Hfs0 : (0 <= fields_size fs)%N) by lia.
+  destruct (N.ltb total_headers_size (N.of_nat (length (request_line m t v)))) eqn:E1; [lia|].
+  pose proof (block_lines_len fs) as Hbl.
+  assert (Hle : block_lines fs <= length rest1).
+  { unfold rest1. rewrite app_length. eapply Nat.le_trans; [exact Hbl|apply Nat.le_add_r]. }
+  replace (S (length rest1)) with (block_lines fs + S (length rest1 - block_lines fs)) by lia.
   unfold rest1 at 2.
-  assert (Hfuel : length fs < S (length rest1)).
-  { pose proof (fields_len fs) as Hfl. unfold rest1. rewrite app_length. apply Nat.lt_succ_r.
-    eapply Nat.le_trans; [exact Hfl|apply Nat.le_add_r]. }
-  rewrite (headers_loop_fields fs [] (mkh DNone [] 0) (0 + N.of_nat (length (request_line m t v)))%N
-             (S (length rest1)) (wire ++ rest) (mkh DNone [] 0) _ Hfuel ltac:(lia) Hw eq_refl Hfold).
-  cbn [h_dec h_hdrs].
+  assert (Hrsz : (N.of_nat (length (request_line m t v)) <= total_headers_size)%N) by lia.
+  rewrite (block_end fs (mkh DNone [] 0) _ (length rest1 - block_lines fs) (wire ++ rest) Hw Hrsz).
+  destruct (N.ltb total_headers_size (N.of_nat (length (request_line m t v)) + fields_size fs)) eqn:E2; [lia|].
+  rewrite Hfold. cbn [h_dec h_hdrs].
   assert (Hrec : forall r3, length r3 <= length (wire ++ rest) ->
             serve true (length (request_line m t v ++ CRLFo ++ rest1)) r3 false 0%N = serve_stream true r3).
   { intros r3 Hr3. unfold serve_stream. apply serve_fuel; [|lia].
@@ -342,8 +205,8 @@ Proof.
   destruct Hwire as [|body0|cs z ze ts Hcs Hl Hts Hsz].
   - destruct d; simpl in Hd; try discriminate. cbn [app]. rewrite Hrec by (simpl; lia). reflexivity.
   - destruct d as [|n|]; simpl in Hd; try discriminate. inversion Hd; subst n.
-    destruct (N.leb (N.of_nat (length body0)) (N.of_nat (length (body0 ++ rest)))) eqn:E2;
-      [|rewrite app_length in E2; lia].
+    destruct (N.leb (N.of_nat (length body0)) (N.of_nat (length (body0 ++ rest)))) eqn:E3;
+      [|rewrite app_length in E3; lia].
     rewrite Nat2N.id, firstn_app_exact, skipn_app_exact. rewrite Hrec by (rewrite app_length; lia). reflexivity.
   - destruct d; simpl in Hd; try discriminate.
     assert (Hne : encode cs z ze ts ++ rest <> []).
@@ -359,17 +222,17 @@ Proof.
 Qed.
 
 (** ---- pipelines ---- *)
-Record wreq := mkw { w_m : bytes; w_t : bytes; w_v : bytes; w_fields : list (bytes * bytes);
+Record wreq := mkw { w_m : bytes; w_t : bytes; w_v : bytes; w_fields : list field;
                      w_fr : framing; w_wire : bytes; w_body : bytes }.
 
-(* a request as RFC 9112 lets a client write it (canonical field lines), within the server's limits *)
+(* a request as RFC 9112 lets a client write it, within the server's limits (500 fields, 16384 header bytes) *)
 Definition wf_wreq (q : wreq) : Prop :=
   rfc_request_line_fields (w_m q) (w_t q) (w_v q) = true /\
   forallb wf_field (w_fields q) = true /\
   length (w_fields q) <= max_headers /\
   (N.of_nat (length (request_line (w_m q) (w_t q) (w_v q))) + fields_size (w_fields q) <= total_headers_size)%N /\
-  no_identity (w_fields q) = true /\ cl_short (w_fields q) = true /\
-  rfc_request_framing (cls_of (w_fields q)) (tes_of (w_fields q)) = Some (w_fr q) /\
+  no_identity (vals (w_fields q)) = true /\ cl_short (vals (w_fields q)) = true /\
+  rfc_request_framing (cls_of (vals (w_fields q))) (tes_of (vals (w_fields q))) = Some (w_fr q) /\
   wire_ok (w_fr q) (w_wire q) (w_body q).
 
 Definition render (q : wreq) : bytes := render_head (w_m q) (w_t q) (w_v q) (w_fields q) ++ w_wire q.
@@ -409,33 +272,144 @@ Proof.
   intros qs q junk Hw Hk Hq Hc. rewrite (pipeline qs _ Hw Hk), (one_request q junk Hq), Hc. reflexivity.
 Qed.
 
-Lemma bad_request_line : forall qs l junk, Forall wf_wreq qs -> forallb keeps_alive qs = true ->
-  find_crlf l = None -> l <> [] -> (N.of_nat (length l) <= total_headers_size)%N ->
+(** ---- the first malformed request: 400, and nothing after it is processed ---- *)
+Lemma bad_line_first : forall l junk, find_crlf l = None -> l <> [] ->
   (forall m t v, l = request_line m t v -> rfc_request_line_fields m t v = false) ->
-  serve_stream true (flat_map render qs ++ l ++ CRLFo ++ junk) = (map parsed qs, EBad).
+  serve_stream true (l ++ CRLFo ++ junk) = ([], EBad).
 Proof.
-  intros qs l junk Hw Hk Hnc Hne Hsz Hbad. rewrite (pipeline qs _ Hw Hk).
-  unfold serve_stream. rewrite serve_S, (read_line_at l junk Hnc). cbv zeta.
-  destruct (N.ltb total_headers_size (0 + N.of_nat (length l))) eqn:E; [lia|].
+  intros l junk Hnc Hne Hbad. unfold serve_stream. rewrite serve_S, (read_line_at l junk Hnc). cbv zeta.
+  destruct (N.ltb total_headers_size (0 + N.of_nat (length l))); [reflexivity|].
   assert (Hn : is_nil l = false) by (destruct l; [congruence|reflexivity]). rewrite Hn. cbn [andb].
-  destruct (parse_request_line true l) as [[[m t] v]|] eqn:Ep.
-  - apply request_line_exact in Ep. destruct Ep as [El Hf]. rewrite (Hbad m t v El) in Hf. discriminate.
-  - rewrite app_nil_r. reflexivity.
+  destruct (parse_request_line true l) as [[[m t] v]|] eqn:Ep; [|reflexivity].
+  apply request_line_exact in Ep. destruct Ep as [El Hf]. rewrite (Hbad m t v El) in Hf. discriminate.
 Qed.
 
-(** a non-trivial instance of [wf_wreq]: POST /a HTTP/1.1, a Host field, Transfer-Encoding: chunked,
-    two chunks (the second chunk's data is the text of a request line), one trailer line *)
+(* the Spec's recogniser and headerReceived agree on refusing a line *)
+Lemma split_colon_first : forall l, split_colon l = split_first COLON l.
+Proof.
+  unfold split_first. induction l as [|x r IH]; [reflexivity|].
+  simpl. change COLONo with COLON. destruct (N.eqb x COLON); [reflexivity|].
+  rewrite IH. destruct (find_byte COLON r); reflexivity.
+Qed.
+
+Lemma exists_drop : forall (p : N -> bool) b, (forall c, is_ows c = true -> p c = false) ->
+  existsb p (drop_ows b) = existsb p b.
+Proof.
+  intros p b Hp. induction b as [|x r IH]; [reflexivity|]. simpl. destruct (is_ows x) eqn:E; [|reflexivity].
+  rewrite IH, (Hp x E). reflexivity.
+Qed.
+Lemma exists_rev : forall (p : N -> bool) b, existsb p (rev b) = existsb p b.
+Proof.
+  induction b as [|x r IH]; [reflexivity|]. simpl. rewrite existsb_app, IH. simpl. rewrite orb_false_r. apply orb_comm.
+Qed.
+Lemma nul_trim : forall v, existsb (N.eqb 0) (trim_ows v) = existsb (N.eqb 0) v.
+Proof.
+  intros v. assert (Hp : forall c, is_ows c = true -> N.eqb 0 c = false).
+  { intros c Hc. destruct (N.eqb 0 c) eqn:E; [|reflexivity]. apply N.eqb_eq in E. subst. vm_compute in Hc. discriminate. }
+  unfold trim_ows. rewrite exists_rev, (exists_drop _ _ Hp), exists_rev, (exists_drop _ _ Hp). reflexivity.
+Qed.
+
+Lemma not_field_line_refused : forall l, rfc_field_line l = false -> forall h, header_received h l = None.
+Proof.
+  intros l H h. unfold rfc_field_line in H. rewrite split_colon_first in H. unfold header_received.
+  destruct (split_first COLON l) as [[n v0]|]; [|reflexivity].
+  rewrite istoken_rfc. destruct (rfc_token n); [|reflexivity]. simpl in H.
+  rewrite strip_trim, nul_trim. apply negb_false_iff in H. rewrite H. reflexivity.
+Qed.
+
+Lemma bad_field_first : forall m t v fs x r nl junk,
+  rfc_request_line_fields m t v = true -> forallb wf_field fs = true ->
+  find_crlf (x :: r) = None -> is_ows x = false -> rfc_field_line (x :: r) = false ->
+  find_crlf nl = None -> match nl with [] => True | y :: _ => is_ows y = false end ->
+  serve_stream true (request_line m t v ++ CRLFo ++ flat_map field_lines fs ++ (x :: r) ++ CRLFo ++ nl ++ CRLFo ++ junk)
+  = ([], EBad).
+Proof.
+  intros m t v fs x r nl junk Hrl Hw Hnc Hx Hbad Hnl Hnlw.
+  unfold serve_stream. rewrite (serve_head _ m t v _ Hrl).
+  destruct (N.ltb total_headers_size (N.of_nat (length (request_line m t v)))) eqn:E1; [reflexivity|].
+  set (rest1 := flat_map field_lines fs ++ (x :: r) ++ CRLFo ++ nl ++ CRLFo ++ junk).
+  pose proof (block_lines_len fs) as Hbl.
+  assert (Hle : block_lines fs + 2 <= length rest1).
+  { unfold rest1. rewrite app_length. apply Nat.add_le_mono; [exact Hbl|]. rewrite app_length. simpl. lia. }
+  replace (S (length rest1)) with (block_lines fs + S (S (length rest1 - block_lines fs - 1))) by lia.
+  assert (Hrsz : (N.of_nat (length (request_line m t v)) <= total_headers_size)%N) by lia.
+  remember (length rest1 - block_lines fs - 1) as fu eqn:Hfu. clear Hfu. unfold rest1.
+  rewrite (block_bad_line fs (mkh DNone [] 0) (N.of_nat (length (request_line m t v))) fu x r nl junk Hw Hrsz Hnc Hx
+             (not_field_line_refused _ Hbad) Hnl Hnlw).
+  reflexivity.
+Qed.
+
+Lemma bad_framing_first : forall m t v fs junk,
+  rfc_request_line_fields m t v = true -> forallb wf_field fs = true ->
+  no_identity (vals fs) = true -> cl_short (vals fs) = true ->
+  rfc_request_framing (cls_of (vals fs)) (tes_of (vals fs)) = None ->
+  serve_stream true (render_head m t v fs ++ junk) = ([], EBad).
+Proof.
+  intros m t v fs junk Hrl Hw Hid Hsh Hfr.
+  pose proof (framing_partial (vals fs) Hid Hsh) as Hfp. rewrite Hfr in Hfp.
+  destruct (choose (vals fs) DNone) as [d|] eqn:Ech; [discriminate|].
+  pose proof (fold_fields_choose fs (mkh DNone [] 0) Hw ltac:(simpl; lia)) as Hfold.
+  cbn [h_dec] in Hfold. fold (vals fs) in Hfold. rewrite Ech in Hfold.
+  unfold render_head. rewrite <- !app_assoc.
+  unfold serve_stream. rewrite (serve_head _ m t v _ Hrl).
+  destruct (N.ltb total_headers_size (N.of_nat (length (request_line m t v)))) eqn:E1; [reflexivity|].
+  set (rest1 := flat_map field_lines fs ++ CRLFo ++ junk).
+  pose proof (block_lines_len fs) as Hbl.
+  assert (Hle : block_lines fs <= length rest1).
+  { unfold rest1. rewrite app_length. eapply Nat.le_trans; [exact Hbl|apply Nat.le_add_r]. }
+  replace (S (length rest1)) with (block_lines fs + S (length rest1 - block_lines fs)) by lia.
+  assert (Hrsz : (N.of_nat (length (request_line m t v)) <= total_headers_size)%N) by lia.
+  remember (length rest1 - block_lines fs) as fu eqn:Hfu. clear Hfu. unfold rest1.
+  rewrite (block_end fs (mkh DNone [] 0) (N.of_nat (length (request_line m t v))) fu junk Hw Hrsz).
+  rewrite Hfold.
+  destruct (N.ltb total_headers_size (N.of_nat (length (request_line m t v)) + fields_size fs)); reflexivity.
+Qed.
+
+Inductive malformed_head : bytes -> Prop :=
+| MH_request_line : forall l junk, find_crlf l = None -> l <> [] ->
+    (forall m t v, l = request_line m t v -> rfc_request_line_fields m t v = false) ->
+    malformed_head (l ++ CRLFo ++ junk)
+| MH_field_line : forall m t v fs x r nl junk,
+    rfc_request_line_fields m t v = true -> forallb wf_field fs = true ->
+    find_crlf (x :: r) = None -> is_ows x = false -> rfc_field_line (x :: r) = false ->
+    find_crlf nl = None -> match nl with [] => True | y :: _ => is_ows y = false end ->
+    malformed_head (request_line m t v ++ CRLFo ++ flat_map field_lines fs ++ (x :: r) ++ CRLFo ++ nl ++ CRLFo ++ junk)
+| MH_framing : forall m t v fs junk,
+    rfc_request_line_fields m t v = true -> forallb wf_field fs = true ->
+    no_identity (vals fs) = true -> cl_short (vals fs) = true ->
+    rfc_request_framing (cls_of (vals fs)) (tes_of (vals fs)) = None ->
+    malformed_head (render_head m t v fs ++ junk).
+
+Lemma first_malformed : forall qs bad, Forall wf_wreq qs -> forallb keeps_alive qs = true ->
+  malformed_head bad ->
+  serve_stream true (flat_map render qs ++ bad) = (map parsed qs, EBad).
+Proof.
+  intros qs bad Hw Hk Hb. rewrite (pipeline qs bad Hw Hk).
+  assert (Hs : serve_stream true bad = ([], EBad)).
+  { destruct Hb.
+    - apply bad_line_first; assumption.
+    - apply bad_field_first; assumption.
+    - apply bad_framing_first; assumption. }
+  rewrite Hs, app_nil_r. reflexivity.
+Qed.
+
+(** a non-trivial instance of [wf_wreq]: POST /a HTTP/1.1; "Host:<HTAB> h <HTAB>" ; Transfer-Encoding with the
+    value on an obs-fold continuation line; two chunks (the second one's data is the text of a request line),
+    one trailer line *)
 Definition ex_chunks : list chunk :=
   [mkchunk [51]%N None [97; 98; 99]%N;
    mkchunk [49; 48]%N (Some [120; 61; 121]%N) [71;69;84;32;47;101;32;72;84;84;80;47;49;46;49;13]%N].
 Definition ex_req : wreq :=
   mkw [80;79;83;84]%N [47;97]%N HTTP_1_1
-      [([72;111;115;116]%N, [104]%N);
-       ([84;114;97;110;115;102;101;114;45;69;110;99;111;100;105;110;103]%N, [67;104;117;110;107;101;100]%N)]
+      [mkfield [72;111;115;116]%N [9;32;104;32;9]%N [];
+       mkfield [84;114;97;110;115;102;101;114;45;69;110;99;111;100;105;110;103]%N [32]%N
+               [([32;9]%N, [67;104;117;110;107;101;100]%N)]]
       FChunked (encode ex_chunks [48]%N None [[84;58;32;118]%N]) (concat (map c_data ex_chunks)).
-Example ex_req_wf : wf_wreq ex_req /\ keeps_alive ex_req = true.
+Example ex_req_wf : wf_wreq ex_req /\ keeps_alive ex_req = true /\
+  map norm (w_fields ex_req) = [([104;111;115;116]%N, [104]%N);
+    ([116;114;97;110;115;102;101;114;45;101;110;99;111;100;105;110;103]%N, [67;104;117;110;107;101;100]%N)].
 Proof.
-  split; [|vm_compute; reflexivity].
+  split; [|split; vm_compute; reflexivity].
   unfold wf_wreq.
   refine (conj _ (conj _ (conj _ (conj _ (conj _ (conj _ (conj _ _))))))).
   - vm_compute; reflexivity.
